@@ -72,7 +72,9 @@ Fixpoint sig_list_eqb (a : list (nat * payload)) (b : list (nat * payload)) : bo
 Definition aggregate_valid (cm : committee) (c : cert) : bool :=
   sig_list_eqb (c_sigs c) (map (fun i => (i, sign_payload c)) (signers cm c)).
 
-Record nodecfg := mkCfg { n_net : N; n_chain : N; n_height : N; n_max_block : N }.
+(* n_last_root: CommitteeData.LastRootHeightUpdated of the node's own chain - the root height of the last certificate its state has
+   processed; a certificate naming an older root height selects a 'historical committee' *)
+Record nodecfg := mkCfg { n_net : N; n_chain : N; n_height : N; n_max_block : N; n_last_root : N }.
 
 Inductive verdict := Commit | Reject.
 
@@ -99,7 +101,11 @@ Definition handle_peer_block (cfg : nodecfg) (cm : committee) (c : cert) : verdi
     | None => Reject
     | Some _ =>
       if negb (v_phase (c_view c) =? Phase_PRECOMMIT_VOTE) then Reject else
-      if b_applies b then Commit else Reject
+      if b_applies b then
+        (* the root height named by the certificate is not older than the one the node's state last recorded (HandlePeerBlock tests
+           this before it loads the committee; the verdict does not depend on the order of the tests) *)
+        (if v_root (c_view c) <? n_last_root cfg then Reject else Commit)
+      else Reject
     end
   end.
 
